@@ -425,8 +425,26 @@ class BuiltinsMixin:
             return t
         return TOP()
 
+    def order_site(self, name, pos, kw, node):
+        """S-order: flatten / ravel / reshape with order 'K' or 'A' enumerate
+        the elements in MEMORY order: the result depends on whether the
+        caller's array happens to be C- or F-contiguous or a transposed view,
+        not on its index order."""
+        o = kw.get('order')
+        if o is None and name in ('flatten', 'ravel') and pos and \
+                pos[0].k == 'str':
+            o = pos[0]
+        if o is not None and o.has_const() and o.c in ('K', 'A', 'k', 'a'):
+            self.I.site('S-order', node, 'violation',
+                        '%s(order=%r) enumerates the elements in memory '
+                        'order: a Fortran-ordered or transposed argument '
+                        'gives another result than a C-ordered one with the '
+                        'same entries' % (name, o.c))
+
     def arr_method(self, a, name, pos, kw, node, env):
         I = self.I
+        if name in ('reshape', 'flatten', 'ravel'):
+            self.order_site(name, pos, kw, node)
         if name == 'reshape':
             order = kw.get('order')
             o = order.c if order is not None and order.has_const() else 'C'
